@@ -289,6 +289,26 @@ def run(ctx, prog):
     okd = bool(pd) and flow.render(hv.of_operand(pd[0].args[1])) == 'var:embedding_digest' and bool(dcall) and bool(nz) and hb.dominates(nz[0].bb, dcall[0].bb)
     ctx.inst('C04.R4', hb.short, 'stored digest is that of the stored (normalised) vector', okd, 'embedding_digest = %s; computed after normalisation: %s' % (dgo[:80], bool(nz and dcall and hb.dominates(nz[0].bb, dcall[0].bb))))
 
+    # every implementation of CacheStrategy::invalidate really removes the entry (R4 treats the trait call as the effect)
+    impls = prog.trait_impls.get('kyrodb_engine::cache_strategy::CacheStrategy::invalidate', [])
+    ctx.floor('C04.R4', 'implementations of CacheStrategy::invalidate', len(impls), 4, 'Lru, Learned, AbTestSplitter, SharedLearned')
+    for ip in impls:
+        ib = prog.resolve_local(ip)
+        if ib is None:
+            ctx.missing('C04.R4', 'body of %s' % ip)
+            continue
+        io = flow.Origin(ib)
+        rets = [r_ for r_ in ib.return_blocks() if r_ in ib.live_blocks()]
+        rm = [c for c in ib.calls if c.callee and c.callee.endswith('VectorCache::remove') and len(c.args) > 1 and flow.render(io.of_operand(c.args[1])) == 'arg:doc_id']
+        dele = [c for c in ib.calls if (c.orig or '').endswith('CacheStrategy::invalidate') and len(c.args) > 1 and flow.render(io.of_operand(c.args[1])) == 'arg:doc_id']
+        adt = prog.adts.get((ib.impl_self or '').split('<')[0]) or {}
+        inner = [f_['name'] for v_ in adt.get('variants', []) for f_ in v_['fields'] if 'CacheStrategy' in f_['ty'] and 'VectorCache' not in f_['ty']]
+        own = [f_['name'] for v_ in adt.get('variants', []) for f_ in v_['fields'] if 'VectorCache' in f_['ty']]
+        dom = lambda cs: [c for c in cs if all(ib.dominates(c.bb, r_) for r_ in rets)]
+        deleg_fields = sorted(set(re.search(r'\.(\w+)$', flow.render(io.of_operand(c.args[0]))).group(1) for c in dom(dele) if re.search(r'\.(\w+)$', flow.render(io.of_operand(c.args[0])))))
+        ok = bool(rets) and ((bool(own) and bool(dom(rm))) or not own) and sorted(inner) == deleg_fields and (bool(own) or bool(inner))
+        ctx.inst('C04.R4', ib.short, 'invalidate removes the entry on every path (own cache) and forwards to every inner strategy', ok,
+                 'own cache field(s) %s: remove(doc_id) on every path: %s; inner strategies %s: forwarded to %s' % (own, bool(dom(rm)), inner, deleg_fields))
     # ------------------------------------------------------------------ R5
     ctx.rule('C04.R5', 'drain keeps the canonical record authoritative: reconcile_drained_hot_tier_documents writes to the cold tier only in the arm '
                        'where the canonical embedding or metadata is missing')
